@@ -84,6 +84,7 @@ def parsePTy (m l : String) : Option PTy :=
   | ["t", k] => if m == "-" then k.toNat?.map .tvar else none
   | ["vt", k, n] => if m == "-" then do pure (.tvec (← k.toNat?) (← n.toNat?)) else none
   | ["mt", k, x, y] => if m == "-" then do pure (.tmat (← k.toNat?) (← x.toNat?) (← y.toNat?)) else none
+  | ["at", k, n] => if m == "-" then do pure (.tarr (← k.toNat?) (← n.toNat?)) else none
   | _ => do pure (.conc ⟨← parseMods m, ← parseLayer l⟩)
 
 def parseTParam (s : String) : Option TParam :=
@@ -149,6 +150,11 @@ def handleResolve (cs az opts : String) : String :=
         parseExplicit opts with
   | some cands, some a, some explicit =>
     -- the literal transcription answers; the form the theorems are about must agree (Thm.C16.resolveGLazy_eq_resolveG)
+    -- outside the protocol's type language (an array of a non-scalar)
+    let unsupported := cands.any fun c =>
+      a.length ≤ c.params.length && c.nonDefault ≤ a.length &&
+        (match c.inst explicit a with | .error e => e.startsWith "unsupported" | _ => false)
+    if unsupported then "unsupported: array of a non-scalar" else
     let o := resolveTLazy cands explicit a
     if o != resolveT cands explicit a then "model-internal-mismatch" else
     -- without templates this is the model of the first round (Thm.C16.resolveG_of_plain)
